@@ -363,10 +363,16 @@ def gen_basis_cases(pid, what, seed, tier, lmax, count, extra, start_id, with_se
         rng = cg.rng_for(seed, pid, "basis", d)
         bits = 10 if tier == "quick" else 24
         n = rng.randint(1, nmax)
-        cens = [cg.center(rng) for _ in range(3)]
-        basis = [cg.shell(rng, rng.randint(0, lmax), bits=bits, cen=rng.choice(cens) if rng.random() < 0.6 else None)
-                 for _ in range(n)]
-        c = {"id": start_id + d, "pid": pid, "what": what, "kind": "basis", "basis": basis}
+        if d % 4 == 1:
+            # diffuse shells spread over tens of bohr: the Gaussian prefactor is small but not negligible, and polynomial
+            # factors (high l, high moment order, far origin) can make such integrals large
+            n = max(n, 2)
+            basis = [cg.shell(rng, rng.randint(1, lmax), K=rng.randint(1, 2), bits=bits, lo=0.02, hi=0.12, span=18.0) for _ in range(n)]
+        else:
+            cens = [cg.center(rng) for _ in range(3)]
+            basis = [cg.shell(rng, rng.randint(0, lmax), bits=bits, cen=rng.choice(cens) if rng.random() < 0.6 else None)
+                     for _ in range(n)]
+        c = {"id": start_id + d, "pid": pid, "what": what, "kind": "basis", "basis": basis, "spread": d % 4 == 1}
         if with_second and d % 2 == 0:
             c["basis2"] = [cg.shell(rng, rng.randint(0, lmax), bits=bits,
                                     cen=rng.choice(cens) if rng.random() < 0.5 else None)
@@ -399,15 +405,19 @@ def extras_for(pid, what):
             e["km"], e["dm"] = 0, 2
         elif what == "moment":
             far = rng.random()
+            if c.get("spread"):
+                far = 0.9
             if far < 0.3:
                 org = list(c["basis"][0]["center"])
             elif far < 0.8:
                 org = cg.center(rng, 3.0)
             else:
-                org = cg.center(rng, 40.0, 1)
+                org = cg.center(rng, rng.choice([40.0, 160.0]), 1)
             e["origin"] = org
             n = rng.randint(1, 4)
             orders = [[rng.randint(0, 4) for _ in range(3)] for _ in range(n)]
+            if c.get("spread"):
+                orders.append(rng.choice([[4, 0, 0], [0, 4, 0], [0, 0, 4], [3, 1, 0]]))
             if rng.random() < 0.3:
                 orders.append([0, 0, 0])
             rng.shuffle(orders)
